@@ -208,6 +208,11 @@ func (c *connection) onProcess(onConnect OnConnect, onRequest OnRequest) (proces
 		// trigger onConnect first
 		if onConnect != nil && c.changeState(connStateNone, connStateConnected) {
 			c.ctx = onConnect(c.ctx, c)
+			// OnConnect may have installed (or replaced) the request handler through SetOnRequest: its kick was deferred to
+			// this task, so go on with the handler that is installed now, not with the one captured before OnConnect ran
+			if handler, ok := c.onRequestCallback.Load().(OnRequest); ok {
+				onRequest = handler
+			}
 			if !c.IsActive() && c.changeState(connStateConnected, connStateDisconnected) {
 				// since we hold connecting lock, so we should help to call onDisconnect here
 				onDisconnect, _ := c.onDisconnectCallback.Load().(OnDisconnect)
